@@ -219,15 +219,17 @@ fn run_node(ctx: &mut Ctx, api: &Api, words: &[u32]) -> usize {
             // gen_bigint it only requires the range, canonical form and agreement with RandomBits,
             // so a different (but deterministic) sign rule is reported, not flagged.
             let pinned = !matches!(api, Api::GenBigint(_) | Api::RandomBitsI(_));
+            // "RandomBits matches gen_bigint": on every stream, whatever sign rule gen_bigint follows
+            if let Api::GenBigint(n) = api {
+                let mut r2 = StreamRng { words, pos: 0 };
+                let again: Result<BigInt, String> = guard(|| RandomBits::new(*n).sample(&mut r2));
+                ctx.compared(1);
+                if again.as_ref().map(int_of) != Ok(g.clone()) {
+                    ctx.viol(format!("RandomBits!=gen_bigint {:?} stream={}{}", api, ws(words), kind()), "RandomBits does not match gen_bigint on the same stream", args(), g.to_hex(), format!("{:?}", again.map(|x| int_of(&x).to_hex())));
+                }
+            }
             if g != want && !pinned {
                 ctx.count("gen_bigint_differs_from_reference_sign_rule", 1);
-                if let Api::GenBigint(n) = api {
-                    let mut r2 = StreamRng { words, pos: 0 };
-                    let again: Result<BigInt, String> = guard(|| RandomBits::new(*n).sample(&mut r2));
-                    if again.as_ref().map(int_of) != Ok(g.clone()) {
-                        ctx.viol(format!("RandomBits!=gen_bigint {:?} stream={}{}", api, ws(words), kind()), "RandomBits does not match gen_bigint on the same stream", args(), g.to_hex(), format!("{:?}", again.map(|x| int_of(&x).to_hex())));
-                    }
-                }
             } else if g != want {
                 ctx.viol(format!("{:?} stream={}{}", api, ws(words), kind()), "result is not the specified function of the RNG stream", args(), want.to_hex(), g.to_hex());
             } else if consumed != m.pos && pinned {
